@@ -7,7 +7,7 @@
 //!   every other byte (other controls, DEL, ill-formed UTF-8, C1 controls) is skipped, so every
 //!   input decodes to a session inside the properties' domain.
 //! cfg bits 0-1: command set (raw / derived enum / derived group / raw), 2-3: handler script,
-//! 4: short-write sink, 5: `Cli::new`, 6: arrows with CSI parameters. cfg2 bits 0-1: Enter style,
+//! 4: short-write sink, 5: `Cli::new`, 6: arrows with CSI parameters, 7: keys other than Enter and Tab sent with another command set. cfg2 bits 0-1: Enter style,
 //! bits 2-4: initial prompt.
 
 use crate::{
@@ -35,6 +35,7 @@ pub fn decode(data: &[u8]) -> Case {
         enter_style: c2 & 3,
         use_new: c & 32 != 0,
         arrow_params: c & 64 != 0,
+        other_set: c & 128 != 0,
     };
     let body = if data.len() > 4 { &data[4..] } else { &[][..] };
     let mut ops = Vec::new();
@@ -104,6 +105,9 @@ pub fn encode(c: &Case, write_k: u8) -> Vec<u8> {
     }
     if c.cfg.arrow_params {
         cb |= 64;
+    }
+    if c.cfg.other_set {
+        cb |= 128;
     }
     let c2 = (c.cfg.enter_style & 3) | (((c.cfg.prompt % 5) as u8) << 2);
     let mut out = vec![(c.cfg.cmd_buf % 65) as u8, (c.cfg.hist_buf % 65) as u8, cb, c2];
